@@ -39,12 +39,15 @@ def spell(f, i, tgts, pat, form):
         if form == 5:
             return "./" + rel_path(f, g)
         return rel_path(f, g)
+    # a glob under the spellings of its directory: relative, home-relative, absolute
+    here = "sub/" if f >= 3 else ""
+    pre = {2: "~/@HOMEREL@/" + here, 3: "@ROOT@/" + here}.get(form, "")
     if pat == "same":
-        return "*.journal"
+        return pre + "*.journal"
     if pat == "all":
         return "<->/*.journal" if form != 1 else "**/*.journal"
     if pat == "sub":
-        return "sub/*.journal"
+        return pre + "sub/*.journal"
     return "nomatch*.journal"
 
 
